@@ -237,7 +237,7 @@ def run_case(case):
 class P(Prop):
     id = "C18"
     case_timeout = 15.0
-    quick_n = 260
+    quick_n = 600
     thorough_n = 3000
     trusted = ["real fork(); lock-step driver over pipes; readline of the file / mmap object pauses on request (module-level rebinding of "
                "files.open and files.mmap inside the forked process tree); lseek probe of descriptor sharing"]
